@@ -242,3 +242,45 @@ def run(ctx):
             ctx.ob('C14.7', ap14, 'existing-entry-always-written', ok, 'a checkpoint entry that existed %s' % ('is written back on every non-error path' if ok else
                    'can be SKIPPED (a path from the exists-edge reaches the next entry without fs::write): the workspace keeps bytes that are not the checkpointed ones while rewind reports success'), line=ap14.blocks[bi]['t'].get('ln'))
     ctx.floor('C14.7', 'tests of CheckpointFile.exists in the apply step', n7, 1)
+
+    # ---------------------------------------------------------------- C14.8
+    ctx.rule('C14.8', 'the covered path is the edited path, character for character: between the tool argument and the checkpoint entry (files_for_invocation, to_relative, create_checkpoint, rewind_to_checkpoint, safe_join, the tools\' resolve_path and their closures) no path value is built from text that went through a rewriting string operation (replace, case folding, trim — directly or through a helper such as normalize_rel). The tool edits `root.join(arg)` as written; a checkpoint that covers a respelled path (`a\\\\b` -> `a/b`) snapshots and restores a different file.')
+    REWRITE = r'::(replace|replacen|to_lowercase|to_uppercase|to_ascii_lowercase|to_ascii_uppercase|make_ascii_lowercase|make_ascii_uppercase|trim|trim_start|trim_end|trim_matches|trim_start_matches|trim_end_matches|nfc|nfd)$'
+    PATHMAKE = r'^<std::path::PathBuf as core::convert::From<.*>>::from$|^std::path::Path::new$|^std::path::Path::join$|^std::path::PathBuf::push$|^std::path::Path::strip_prefix$|^std::path::Path::with_file_name$|^<std::path::PathBuf as core::str::traits::FromStr>::from_str$'
+    roots8 = ['rip_tools::runtime::files_for_invocation', 'rip_workspace::Workspace::to_relative', 'rip_workspace::Workspace::create_checkpoint',
+              'rip_workspace::Workspace::rewind_to_checkpoint', 'rip_workspace::Workspace::safe_join', 'rip_tools::builtins::resolve_path']
+    rewr_cache = {}
+
+    def rewrites(callee):
+        if callee is None:
+            return False
+        if re.search(REWRITE, callee):
+            return True
+        if callee not in P.fns or callee in roots8:
+            return False
+        if callee not in rewr_cache:
+            rewr_cache[callee] = any(re.search(REWRITE, x) for x in P.reach_fns([callee]))
+        return rewr_cache[callee]
+    n8 = 0
+    for r8 in roots8:
+        P.fn(r8)
+        for g in P.family(r8):
+            ctx.touch(g)
+            rw_dests = {s_.dest['l']: s_ for s_ in g.sites() if s_.callee and s_.dest and rewrites(s_.callee)}
+            makes = [(s_, list(s_.args)) for s_ in g.calls(PATHMAKE)]
+            makes += [(Site(g, bi, g.blocks[bi]['t']) if False else None, [op for fld, op in zip(st['rv']['fields'], st['rv']['a']) if fld == 'path'], st) for (bi, si, st) in g.aggregates(r'rip_workspace::CheckpointFile$')]
+            for m in makes:
+                args = m[1]
+                ln = m[0].line if m[0] is not None else m[2].get('ln')
+                nm = m[0].name if m[0] is not None else 'CheckpointFile.path'
+                n8 += 1
+                hit = None
+                for a in args:
+                    rl = reads_locals(g, a)
+                    for l_, s_ in rw_dests.items():
+                        if l_ in rl:
+                            hit = s_
+                ctx.ob('C14.8', g, 'path-text-verbatim:%s' % (nm if isinstance(nm, str) else nm()), hit is None,
+                       'the path built here reads no rewritten text' if hit is None else
+                       'the path built here is made from the result of %s (line %s), which rewrites the text of the path: a file whose name contains the rewritten characters is checkpointed and restored under a DIFFERENT path than the one the tool edits' % (hit.callee.rsplit('::', 1)[-1], hit.line), line=ln)
+    ctx.floor('C14.8', 'path constructions between the tool argument and the checkpoint entry', n8, 10)
